@@ -438,6 +438,39 @@ func runC12(c *Ctx, w *World, r *Report) {
 			if nW == 0 && bad == "" {
 				bad = "no bit write into Words"
 			}
+			// Words is touched only to set the listed bits: any other element access (a bounds-check hint, a peek at the
+			// last word) indexes a word that need not exist when there is nothing to write (size 0, empty list)
+			var okIdx []Lin
+			for _, br := range refs[n] {
+				if br.Role == ".Words" && br.Write {
+					switch x := br.Ins.(type) {
+					case *ssa.IndexAddr:
+						okIdx = append(okIdx, fa.Lin(x.Index))
+					case *ssa.Index:
+						okIdx = append(okIdx, fa.Lin(x.Index))
+					}
+				}
+			}
+			eachInstr(fn, func(ins ssa.Instruction) {
+				var cont, idx ssa.Value
+				switch x := ins.(type) {
+				case *ssa.IndexAddr:
+					cont, idx = x.X, x.Index
+				case *ssa.Index:
+					cont, idx = x.X, x.Index
+				default:
+					return
+				}
+				same := false
+				for _, L := range okIdx {
+					if L.Eq(fa.Lin(idx)) {
+						same = true
+					}
+				}
+				if containerRole(cont) == ".Words" && !same && bad == "" {
+					bad = "Words[" + fa.Lin(idx).String() + "] is accessed at " + w.InstrPos(ins) + " outside the single-bit writes at Offset+p: with nothing to write (size 0 and no positions) that word need not exist"
+				}
+			})
 			// end candidates
 			if endPhi != nil {
 				for _, s := range resolvePhi(endPhi) {
